@@ -194,6 +194,11 @@ def c12(tier):
     runs = [dict(harness="verifHarness_C12", args=[n, 0]) for n in range(0, (3 if q else 4) + 1)]
     runs.append(dict(harness="verifHarness_C12", args=[(4 if q else 5), 1]))
     runs += [dict(harness="verifHarness_C12_soup", args=[m]) for m in ((2, 3) if q else (2, 3, 4))]
+    for prefix in range(4):
+        for quote in range(4):
+            if quote == 3 and prefix != 0:
+                continue
+            runs.append(dict(harness="verifHarness_C12_lit", args=[3 if q else 4, prefix, quote]))
     return runs
 
 
@@ -230,15 +235,20 @@ def c14(tier):
                 continue
             for n in range(0, k + 1):
                 runs.append(dict(harness="verifHarness_C14_lit", args=[n, prefix, quote]))
+    for form in range(4):
+        for long in (0, 1):
+            runs.append(dict(harness="verifHarness_C14_uni", args=[form, long]))
     return runs
 
 
 def c18(tier):
     q = tier == "quick"
     runs = []
-    n = 2 if q else 3
     for e in range(E):
-        runs.append(dict(harness="verifHarness_C18", args=[n, e, (e + 3) % E]))
+        runs.append(dict(harness="verifHarness_C18", args=[1 if q else 2, e, (e + 3) % E]))
+    for e in ((1, 3) if q else (0, 1, 3, 4, 6)):
+        runs.append(dict(harness="verifHarness_C18", args=[2 if q else 3, e, (e + 3) % E]))
+    runs += [dict(harness="verifHarness_C18_lit", args=[k, QUERY]) for k in ((0, 1) if q else (0, 1, 2))]
     runs += fam(18, tier, cut=False, budget=1 if q else 2)
     return runs
 
@@ -338,7 +348,7 @@ PROPS = {
                         "thorough": "<= 3 present children, depth 2; families with <= 2 deviations"},
                 outside="trees deeper than the bounds that are not family instances"),
     "C18": dict(level="model_checking", runs=c18, reach=["C18/ok"],
-                bounds={"quick": "x: all byte strings of length <= 2, y: one of 6 fixed inputs (valid, invalid, lexically broken, empty), every entry point paired with another one; plus every sentence of the 23 families (<= 1 deviation) with a fixed erroneous statement list in between",
+                bounds={"quick": "x: all byte strings of length <= 1 on every entry point (<= 2 for ParseExpr and ParseStatements), y: one of 7 fixed inputs (valid, invalid, lexically broken, empty, with \\u escapes), each entry point paired with another one; literals exercising every escape kind; plus every sentence of the 23 families (<= 1 deviation) with a fixed erroneous statement list in between",
                         "thorough": "x of length <= 3; families with <= 2 deviations"},
                 outside="interleavings of goroutines are not explored (DESIGN.md section 8): race-freedom follows from the absence of writes to shared state by argument, not by schedule exploration"),
     "C19": dict(level="translation_validation", runs=cutpanics(c19), reach=["C19/checked", "C19/parsed"],
